@@ -227,6 +227,7 @@ class SimFS:
         self.armed = dict(fault) if fault else None
         self.log = []
         self.write_calls = 0
+        self.op_write_opens = 0
 
     def end_op(self):
         f = self.armed
@@ -250,7 +251,9 @@ class SimFS:
                     f['fired'] = True
                     self.fired.append('eio_open')
                     raise OSError(errno.EIO, os.strerror(errno.EIO), path)
-                if f['kind'] == 'vanish':
+                if f['kind'] == 'vanish' and getattr(self, 'op_write_opens', 0) == 0:
+                    # (a file that disappears *after* this operation already rewrote it would make "leaves a complete
+                    # cache behind" unsatisfiable for any implementation: the fault only models loss before the write)
                     f['fired'] = True
                     self.fired.append('vanish')
                     try:
@@ -259,6 +262,7 @@ class SimFS:
                         pass
             fd = os.open(path, os.O_RDONLY)
             return SimFile(self, path, mode, fd)
+        self.op_write_opens = getattr(self, 'op_write_opens', 0) + 1
         flags = os.O_WRONLY | os.O_CREAT
         if 'w' in mode:
             flags |= os.O_TRUNC
